@@ -42,14 +42,15 @@ NFClasses(vt, req) ==
     [] vt = "anys" -> {"strArr", "mixedArr"}
     [] vt = "strs" -> {"strArr"}
     [] vt = "typeUnion" -> {"str", "strArr2"}
-    [] vt = "schemaOrArray" -> {"schema", "schemaList1", "schemaList2"}
-    [] vt = "schemaOrBool" -> {"schema", "true", "false"}
+    [] vt = "schemaOrArray" -> {"schema", "schemaList1", "schemaList2", "refObj"}
+    [] vt = "schemaOrBool" -> {"schema", "true", "false", "refObj"}
     [] vt = "map:schemaOrStrings" -> {"depSchema", "depStrs", "depBoth"}
     [] vt = "security" -> {"sec1", "secEmptyScopes", "secTwo"}
     [] vt = "scopes" -> IF req THEN {"scopes1", "scopesEmpty"} ELSE {"scopes1"}
     [] vt = "anymap" -> {"ex1", "ex2"}
     [] vt = "ref" -> {"refLocal", "refRemote"}
     [] vt = "kind:paths" -> IF req THEN {"obj", "emptyObj"} ELSE {"obj"}
+    [] vt = "kind:schema" -> {"obj", "refObj"}            \* a schema may be given as a reference
     [] vt = "kind:responses" -> {"obj"}
     [] OTHER -> IF KidKind(vt) = "" THEN {"str"}
                 ELSE IF SubSeq(vt, 1, 4) = "map:" THEN {"map1", "map2"}
@@ -199,7 +200,12 @@ SingleMembers(k, fl) ==
   UNION {{<<M(k, kw, c)>> : c \in NFClasses(VTypeOf(k, kw), kw \in RequiredOf(k, fl)) \cup (IF VTypeOf(k, kw) = "ref" THEN {} ELSE EmptyClasses(VTypeOf(k, kw)))}
           : kw \in Free(k, fl)}
   \cup (IF AdmitsExt(k, fl) THEN {<<[name |-> "x-ext", vt |-> "any", cls |-> "obj"]>>} ELSE {})
-ValidCases == UNION {{Case("valid", st[1], st[2], st[3], ms) : ms \in SingleMembers(st[2], st[3])} : st \in Grown}
+\* a required text member at its empty value next to every other single member (the encoders treat "required" and
+\* "empty" in ways that depend on what else the object holds)
+ReqEmptyPairs(k, fl) ==
+  LET R == {kw \in RequiredOf(k, fl) \cap Free(k, fl) : VTypeOf(k, kw) = "str"}
+  IN  UNION {{<<M(k, r, "emptyStr")>> \o ms : ms \in {x \in SingleMembers(k, fl) : x[1].name # r /\ x[1].cls \in NFClasses(x[1].vt, FALSE)}} : r \in R}
+ValidCases == UNION {{Case("valid", st[1], st[2], st[3], ms) : ms \in SingleMembers(st[2], st[3]) \cup ReqEmptyPairs(st[2], st[3])} : st \in Grown}
 
 \* ---- odd strings where a URL or a reference is expected (C07)
 OddStrings == {"hash", "hashslash", "dblhash", "badpct", "badhost", "noscheme", "space", "ctl", "tilde2", "onlyquery", "longfrag",
